@@ -624,6 +624,16 @@ func (h *c17Hist) run() error {
 		}
 	}
 	for i := 0; i < steps; i++ {
+		// directed (every fourth history): a hundred days later — the owners' storage plans have run out — the owner
+		// deletes its files; files, listings and proof records must go together as at any other time
+		if h.hid%4 == 3 && i == steps-5 {
+			h.e.At(h.e.Height+1, h.e.Time.Add(100*24*time.Hour))
+			for _, f := range append([]*c17File{}, h.files...) {
+				if err := h.deleteWith(f, f.Owner, f.Merkle, f.Start); err != nil {
+					return err
+				}
+			}
+		}
 		x := p.Intn(tot)
 		name := ""
 		for _, w := range ws {
@@ -765,7 +775,7 @@ func (h *c17Hist) pickFile() *c17File {
 }
 
 func (h *c17Hist) opDelete() error {
-	p, e := h.p, h.e
+	p := h.p
 	f := h.pickFile()
 	if f == nil {
 		return nil
@@ -781,6 +791,11 @@ func (h *c17Hist) opDelete() error {
 	case 3:
 		start = 0 // the field left at its zero value (a client that only knows merkle and owner)
 	}
+	return h.deleteWith(f, creator, merkle, start)
+}
+
+func (h *c17Hist) deleteWith(f *c17File, creator string, merkle []byte, start int64) error {
+	e := h.e
 	msg := &storagetypes.MsgDeleteFile{Creator: creator, Merkle: merkle, Start: start}
 	pre := h.cur
 	res := e.Run(msg)
